@@ -44,7 +44,10 @@ BAD = [('lower', 'custom_a', 'custom_a'), ('noprefix', 'A', 'A'), ('prefix-only'
        ('newline', NL, 'CUSTOM_A%0A'),
        # names that only look valid once pasted into / decoded from a JSON document
        ('json-escape', 'CUSTOM_\\u0041', 'CUSTOM_%5Cu0041'),
-       ('json-inject', 'CUSTOM_A","name":"CUSTOM_B', 'CUSTOM_A%22%2C%22name%22%3A%22CUSTOM_B')]
+       ('json-inject', 'CUSTOM_A","name":"CUSTOM_B', 'CUSTOM_A%22%2C%22name%22%3A%22CUSTOM_B'),
+       # characters that are "digits" / "letters" to Unicode-aware classes but not [A-Z0-9_]
+       ('unicode-digit', 'CUSTOM_A\u0663', 'CUSTOM_A%D9%A3'),
+       ('fullwidth', 'CUSTOM_\uff21\uff17', 'CUSTOM_%EF%BC%A1%EF%BC%97')]
 ALLOWED = frozenset('ABCDEFGHIJKLMNOPQRSTUVWXYZ0123456789_')
 RP = P(1)
 NEW = object()
